@@ -65,11 +65,11 @@ Section P.
   Proof. reflexivity. Qed.
 
   Lemma spec_eats fuel B x t :
-    wfz t = true -> has_ty x t = true -> Nat.min (dyn_depth x) B <= fuel ->
+    has_ty x t = true -> Nat.min (dyn_depth x) B <= fuel ->
     eats B (spec_dec parse fuel t) (spec_enc x).
   Proof.
-    intros Hwz Hty Hd rest Hlen. exists x.
-    apply (spec_dec_exact parse parse_print fuel x t Hwz Hty).
+    intros Hty Hd rest Hlen. exists x.
+    apply (spec_dec_exact parse parse_print fuel x t Hty).
     pose proof (dyn_depth_le_len_any x) as Hdl. rewrite app_length in Hlen. lia.
   Qed.
 
@@ -77,28 +77,26 @@ Section P.
   (* B bounds the length of the input: a decoder run on fewer than B bytes cannot meet more
      than B nested dynamic values, so fuel >= min (dyn_depth v) B is enough *)
   Definition SP (v : tval) : Prop :=
-    forall t fuel B, wfz t = true -> has_ty v t = true -> Nat.min (dyn_depth v) B <= fuel ->
+    forall t fuel B, has_ty v t = true -> Nat.min (dyn_depth v) B <= fuel ->
       strict B (spec_dec parse fuel t) (spec_enc v).
 
   Lemma spec_members {T} (proj : T -> ty) fuel B l (ts : list T) :
     Forall SP l -> Forall2 (fun x t => has_ty x (proj t) = true) l ts ->
-    forallb (fun t => wfz (proj t)) ts = true ->
     Nat.min (fold_right (fun y a => Nat.max (dyn_depth y) a) 0 l) B <= fuel ->
     all2 B (map (fun t => spec_dec parse fuel (proj t)) ts) (map spec_enc l).
   Proof.
-    intros IH HF Hwz Hd. apply all2_of_Forall2.
-    apply (forallb_Forall2_r _ _ _ _ Hwz) in HF.
+    intros IH HF Hd. apply all2_of_Forall2.
     apply (Forall2_Forall_l _ _ _ _ (dyn_depth_members l)) in HF.
     revert HF. apply Forall2_mp. eapply Forall_impl; [|exact IH].
-    intros x Hx t [Hdx [Hty Hw]]. split.
-    - apply spec_eats; [exact Hw|exact Hty|lia].
-    - apply Hx; [exact Hw|exact Hty|lia].
+    intros x Hx t [Hdx Hty]. split.
+    - apply spec_eats; [exact Hty|lia].
+    - apply Hx; [exact Hty|lia].
   Qed.
 
   Lemma spec_dec_strict : forall v, SP v.
   Proof.
     induction v as [w b|b|s|l IH|kvs IH|l IH|t' v IH] using tval_ind2;
-      intros t fuel B Hwz Hty Hd k Hk HB.
+      intros t fuel B Hty Hd k Hk HB.
     - apply has_ty_VNum in Hty as (s & Ht & Hw & Hb). subst t. rewrite (spec_dec_num fuel s w _ Hw).
       apply fails_bind. exact (read_num_strict B w b k Hk HB).
     - apply has_ty_VBool in Hty. subst t. rewrite spec_dec_bool. apply fails_bind.
@@ -107,54 +105,47 @@ Section P.
     - apply has_ty_VStr in Hty as [Ht Hs]. subst t. rewrite spec_dec_str. apply fails_bind.
       exact (read_str_strict B s Hs k Hk HB).
     - apply has_ty_VList in Hty as (t' & Ht & Hn & HF). subst t.
-      cbn [wfz] in Hwz. apply andb_true_iff in Hwz as [Hmw Hwz']. apply Nat.leb_le in Hmw.
       rewrite spec_dec_list. cbn [spec_enc] in Hk |- *.
       destruct (read_u32_trunc _ _ k (lt31_32 _ Hn) Hk) as [[Hlt Hr]|[Hge [Hk' Hr]]];
         rewrite Hr; cbn [bind]; [apply fails_err|].
       apply fails_bind. rewrite flat_map_concat_map in Hk' |- *.
       rewrite <- (map_length spec_enc l).
-      apply (rep_strict B _ (map spec_enc l)); [|exact Hk'|lia].
+      apply (rep_strict B _ (map spec_enc l)); [|exact (uniform_elems t' l HF)|exact Hk'|lia].
       apply Forall_map. apply Forall_forall. intros x Hin. rewrite Forall_forall in IH, HF.
       pose proof (dyn_depth_in x l Hin) as Hdx. cbn [dyn_depth] in Hd.
-      split; [|split].
-      + apply spec_eats; [exact Hwz'|exact (HF x Hin)|lia].
-      + apply (IH x Hin); [exact Hwz'|exact (HF x Hin)|lia].
-      + pose proof (min_width_le_len x t' (HF x Hin)) as Hm. lia.
+      split.
+      + apply spec_eats; [exact (HF x Hin)|lia].
+      + apply (IH x Hin); [exact (HF x Hin)|lia].
     - apply has_ty_VMap in Hty as (tk & tv & Ht & Hn & HF). subst t.
-      cbn [wfz] in Hwz. apply andb_true_iff in Hwz as [Hwz Hwv]. apply andb_true_iff in Hwz as [Hmw Hwk].
-      apply Nat.leb_le in Hmw.
       rewrite spec_dec_map. cbn [spec_enc] in Hk |- *.
       destruct (read_u32_trunc _ _ k (lt31_32 _ Hn) Hk) as [[Hlt Hr]|[Hge [Hk' Hr]]];
         rewrite Hr; cbn [bind]; [apply fails_err|].
       apply fails_bind. rewrite flat_map_concat_map in Hk' |- *.
       rewrite <- (map_length (fun kv : tval * tval => spec_enc (fst kv) ++ spec_enc (snd kv)) kvs).
       apply (rep_strict B _ (map (fun kv : tval * tval => spec_enc (fst kv) ++ spec_enc (snd kv)) kvs));
-        [|exact Hk'|lia].
+        [|exact (uniform_entries tk tv kvs HF)|exact Hk'|lia].
       apply Forall_map. apply Forall_forall. intros kv Hin. rewrite Forall_forall in IH, HF.
       destruct (IH kv Hin) as [IHk IHv]. destruct (HF kv Hin) as [Htk Htv].
       pose proof (dyn_depth_in_map kv kvs Hin) as Hdx. cbn [dyn_depth] in Hd.
       assert (Hek : eats B (spec_dec parse fuel tk) (spec_enc (fst kv)))
-        by (apply spec_eats; [exact Hwk|exact Htk|lia]).
+        by (apply spec_eats; [exact Htk|lia]).
       assert (Hev : eats B (spec_dec parse fuel tv) (spec_enc (snd kv)))
-        by (apply spec_eats; [exact Hwv|exact Htv|lia]).
-      split; [|split].
+        by (apply spec_eats; [exact Htv|lia]).
+      split.
       + apply pair_with_eats; assumption.
       + apply pair_with_strict; [exact Hek|apply IHk|apply IHv]; try assumption; lia.
-      + pose proof (min_width_le_len _ _ Htk) as Hm1. pose proof (min_width_le_len _ _ Htv) as Hm2.
-        rewrite app_length. lia.
-    - assert (Hstruct : forall n fs, wfz (TStruct n fs) = true ->
-                Forall2 (fun x f => has_ty x (snd f) = true) l fs ->
+    - assert (Hstruct : forall n fs, Forall2 (fun x f => has_ty x (snd f) = true) l fs ->
                 fails (spec_dec parse fuel (TStruct n fs) (firstn k (spec_enc (VTup l))))).
-      { intros n fs Hwz' HF. rewrite spec_dec_struct. apply fails_bind.
-        cbn [spec_enc] in Hk |- *. rewrite flat_map_concat_map in Hk |- *. cbn [wfz] in Hwz'.
-        exact (seq_with_strict B _ _ (spec_members (@snd string ty) fuel B l fs IH HF Hwz' Hd) k Hk HB). }
+      { intros n fs HF. rewrite spec_dec_struct. apply fails_bind.
+        cbn [spec_enc] in Hk |- *. rewrite flat_map_concat_map in Hk |- *.
+        exact (seq_with_strict B _ _ (spec_members (@snd string ty) fuel B l fs IH HF Hd) k Hk HB). }
       apply has_ty_VTup in Hty as [(ts & Ht & HF)|[(n & fs & Ht & HF)|[[Ht Hl]|[Ht Ho]]]]; subst t.
       + rewrite spec_dec_tuple. apply fails_bind.
-        cbn [spec_enc] in Hk |- *. rewrite flat_map_concat_map in Hk |- *. cbn [wfz] in Hwz.
-        exact (seq_with_strict B _ _ (spec_members (fun t => t) fuel B l ts IH HF Hwz Hd) k Hk HB).
+        cbn [spec_enc] in Hk |- *. rewrite flat_map_concat_map in Hk |- *.
+        exact (seq_with_strict B _ _ (spec_members (fun t => t) fuel B l ts IH HF Hd) k Hk HB).
       + apply Hstruct; assumption.
       + subst l. cbn in Hk. lia.
-      + rewrite spec_dec_obj. unfold ty_ObjectReference. apply Hstruct; [exact wfz_ObjectReference|].
+      + rewrite spec_dec_obj. unfold ty_ObjectReference. apply Hstruct.
         apply has_ty_struct_iff with (n := "ObjectReference"%string). exact Ho.
     - apply has_ty_VDyn in Hty as (Ht & Hg & Hlen & Hv). subst t.
       cbn [dyn_depth] in Hd. destruct fuel as [|f]; [lia|].
@@ -163,17 +154,17 @@ Section P.
         by (rewrite length_bytes_of_string; exact Hlen).
       destruct (read_str_trunc B _ _ k Hs Hk HB) as [Hf|[Hge [Hk' Hr]]].
       + apply fails_bind. exact Hf.
-      + rewrite Hr. cbn [bind]. rewrite string_of_bytes_of_string, (parse_print t' (good_ty_wf t' Hg)).
+      + rewrite Hr. cbn [bind]. rewrite string_of_bytes_of_string, (parse_print t' Hg).
         apply fails_bind. rewrite enc_str_length in Hge, Hk' |- *.
-        apply (IH t' f (B - 1) (good_ty_wfz t' Hg) Hv); [lia|exact Hk'|lia].
+        apply (IH t' f (B - 1) Hv); [lia|exact Hk'|lia].
   Qed.
 
   Theorem spec_dec_prefix : forall v t fuel k,
-    good_ty t = true -> has_ty v t = true -> dyn_depth v <= fuel ->
+    wf_ty t = true -> has_ty v t = true -> dyn_depth v <= fuel ->
     k < List.length (spec_enc v) -> fails (spec_dec parse fuel t (firstn k (spec_enc v))).
   Proof.
     intros v t fuel k Hg Hty Hd Hk.
-    apply (spec_dec_strict v t fuel (S k) (good_ty_wfz t Hg) Hty); [lia|exact Hk|lia].
+    apply (spec_dec_strict v t fuel (S k) Hty); [lia|exact Hk|lia].
   Qed.
 
   (* ---------- sig_read, one equation per shape of type ---------- *)
@@ -254,20 +245,18 @@ Section P.
     Qed.
 
     Definition SQ (v : tval) : Prop :=
-      forall t fuel B, wfz t = true -> has_ty v t = true -> Nat.min (dyn_depth v) B <= fuel ->
+      forall t fuel B, has_ty v t = true -> Nat.min (dyn_depth v) B <= fuel ->
         eats B (sig_read parse c fuel t) (spec_enc v) /\ strict B (sig_read parse c fuel t) (spec_enc v).
 
     Lemma sig_members {T} (proj : T -> ty) fuel B l (ts : list T) :
       Forall SQ l -> Forall2 (fun x t => has_ty x (proj t) = true) l ts ->
-      forallb (fun t => wfz (proj t)) ts = true ->
       Nat.min (fold_right (fun y a => Nat.max (dyn_depth y) a) 0 l) B <= fuel ->
       all2 B (map (fun t => sig_read parse c fuel (proj t)) ts) (map spec_enc l).
     Proof.
-      intros IH HF Hwz Hd. apply all2_of_Forall2.
-      apply (forallb_Forall2_r _ _ _ _ Hwz) in HF.
+      intros IH HF Hd. apply all2_of_Forall2.
       apply (Forall2_Forall_l _ _ _ _ (dyn_depth_members l)) in HF.
       revert HF. apply Forall2_mp. eapply Forall_impl; [|exact IH].
-      intros x Hx t [Hdx [Hty Hw]]. apply Hx; [exact Hw|exact Hty|lia].
+      intros x Hx t [Hdx Hty]. apply Hx; [exact Hty|lia].
     Qed.
 
     Lemma cat_seq_eats_strict B ps es :
@@ -281,27 +270,27 @@ Section P.
     Qed.
 
     Lemma sig_counted B (p : bytes -> res (bytes * bytes)) n es :
-      n = N.of_nat (List.length es) -> (n < 2 ^ 32)%N -> Forall (elem_ok B p) es ->
+      n = N.of_nat (List.length es) -> (n < 2 ^ 32)%N -> Forall (elem_ok B p) es -> uniform es ->
       let q := fun bs => do '(m, r) <- read_num 4 bs;
                          do '(d, r') <- cat_res (rep p m r); ROk (enc_u32 m ++ d, r') in
       eats B q (enc_u32 n ++ concat es) /\ strict B q (enc_u32 n ++ concat es).
     Proof.
-      intros Hn Hlt Hes q. subst q. split.
+      intros Hn Hlt Hes Hu q. subst q. split.
       - intros rest Hlen. cbv beta. rewrite <- app_assoc, (read_u32_enc n _ Hlt). cbn [bind].
-        destruct (rep_eats B p es Hes rest) as [xs Hxs].
+        destruct (rep_eats B p es Hes Hu rest) as [xs Hxs].
         { rewrite !app_length in Hlen. rewrite app_length. lia. }
         subst n. rewrite Hxs. unfold cat_res. cbn [bind]. eexists. reflexivity.
       - intros k Hk HB. cbv beta.
         destruct (read_u32_trunc n _ k Hlt Hk) as [[Hlt4 Hr]|[Hge [Hk' Hr]]];
           rewrite Hr; cbn [bind]; [apply fails_err|].
         apply fails_bind. unfold cat_res. apply fails_bind. subst n.
-        apply (rep_strict B p es Hes); [exact Hk'|lia].
+        apply (rep_strict B p es Hes Hu); [exact Hk'|lia].
     Qed.
 
     Lemma sig_read_strict : forall v, SQ v.
     Proof.
       induction v as [w b|b|s|l IH|kvs IH|l IH|t' v IH] using tval_ind2;
-        intros t fuel B Hwz Hty Hd.
+        intros t fuel B Hty Hd.
       - apply has_ty_VNum in Hty as (s & Ht & Hw & Hb). subst t.
         apply (both_ext B _ _ _ (fun bs => sig_read_num fuel s w bs Hw)).
         cbn [spec_enc]. rewrite <- (le_length w b) at 1 3.
@@ -313,50 +302,43 @@ Section P.
         apply (both_ext B _ _ _ (sig_read_str fuel)).
         split; [apply string_reader_eats|apply string_reader_strict]; exact Hs.
       - apply has_ty_VList in Hty as (t' & Ht & Hn & HF). subst t.
-        cbn [wfz] in Hwz. apply andb_true_iff in Hwz as [Hmw Hwz']. apply Nat.leb_le in Hmw.
         apply (both_ext B _ _ _ (sig_read_list fuel t')).
         cbn [spec_enc]. rewrite flat_map_concat_map.
-        apply sig_counted; [now rewrite map_length|exact (lt31_32 _ Hn)|].
+        apply sig_counted; [now rewrite map_length|exact (lt31_32 _ Hn)| |exact (uniform_elems t' l HF)].
         apply Forall_map. apply Forall_forall. intros x Hin. rewrite Forall_forall in IH, HF.
         pose proof (dyn_depth_in x l Hin) as Hdx. cbn [dyn_depth] in Hd.
-        destruct (IH x Hin t' fuel B Hwz' (HF x Hin)) as [He Hs]; [lia|].
-        split; [exact He|split; [exact Hs|]].
-        pose proof (min_width_le_len x t' (HF x Hin)) as Hm. lia.
+        destruct (IH x Hin t' fuel B (HF x Hin)) as [He Hs]; [lia|].
+        split; [exact He|exact Hs].
       - apply has_ty_VMap in Hty as (tk & tv & Ht & Hn & HF). subst t.
-        cbn [wfz] in Hwz. apply andb_true_iff in Hwz as [Hwz Hwv]. apply andb_true_iff in Hwz as [Hmw Hwk].
-        apply Nat.leb_le in Hmw.
         apply (both_ext B _ _ _ (sig_read_map fuel tk tv)).
         cbn [spec_enc]. rewrite flat_map_concat_map.
-        apply sig_counted; [now rewrite map_length|exact (lt31_32 _ Hn)|].
+        apply sig_counted; [now rewrite map_length|exact (lt31_32 _ Hn)| |exact (uniform_entries tk tv kvs HF)].
         apply Forall_map. apply Forall_forall. intros kv Hin. rewrite Forall_forall in IH, HF.
         destruct (IH kv Hin) as [IHk IHv]. destruct (HF kv Hin) as [Htk Htv].
         pose proof (dyn_depth_in_map kv kvs Hin) as Hdx. cbn [dyn_depth] in Hd.
-        destruct (IHk tk fuel B Hwk Htk) as [Hek Hsk]; [lia|].
-        destruct (IHv tv fuel B Hwv Htv) as [Hev Hsv]; [lia|].
-        split; [|split].
+        destruct (IHk tk fuel B Htk) as [Hek Hsk]; [lia|].
+        destruct (IHv tv fuel B Htv) as [Hev Hsv]; [lia|].
+        split.
         + unfold sig_pair. apply (eats_map B _ (fun kv' : bytes * bytes => fst kv' ++ snd kv')).
           apply pair_with_eats; assumption.
         + unfold sig_pair. apply (strict_map B _ (fun kv' : bytes * bytes => fst kv' ++ snd kv')).
           apply pair_with_strict; assumption.
-        + pose proof (min_width_le_len _ _ Htk) as Hm1. pose proof (min_width_le_len _ _ Htv) as Hm2.
-          rewrite app_length. lia.
-      - assert (Hstruct : forall n fs, wfz (TStruct n fs) = true ->
-                  Forall2 (fun x f => has_ty x (snd f) = true) l fs ->
+      - assert (Hstruct : forall n fs, Forall2 (fun x f => has_ty x (snd f) = true) l fs ->
                   eats B (sig_read parse c fuel (TStruct n fs)) (spec_enc (VTup l)) /\
                   strict B (sig_read parse c fuel (TStruct n fs)) (spec_enc (VTup l))).
-        { intros n fs Hwz' HF. apply (both_ext B _ _ _ (sig_read_struct fuel n fs)).
-          cbn [spec_enc]. rewrite flat_map_concat_map. cbn [wfz] in Hwz'.
-          apply cat_seq_eats_strict. exact (sig_members (@snd string ty) fuel B l fs IH HF Hwz' Hd). }
+        { intros n fs HF. apply (both_ext B _ _ _ (sig_read_struct fuel n fs)).
+          cbn [spec_enc]. rewrite flat_map_concat_map.
+          apply cat_seq_eats_strict. exact (sig_members (@snd string ty) fuel B l fs IH HF Hd). }
         apply has_ty_VTup in Hty as [(ts & Ht & HF)|[(n & fs & Ht & HF)|[[Ht Hl]|[Ht Ho]]]]; subst t.
         + apply (both_ext B _ _ _ (sig_read_tuple fuel ts)).
-          cbn [spec_enc]. rewrite flat_map_concat_map. cbn [wfz] in Hwz.
-          apply cat_seq_eats_strict. exact (sig_members (fun t => t) fuel B l ts IH HF Hwz Hd).
+          cbn [spec_enc]. rewrite flat_map_concat_map.
+          apply cat_seq_eats_strict. exact (sig_members (fun t => t) fuel B l ts IH HF Hd).
         + apply Hstruct; assumption.
         + subst l. split.
           * intros rest Hlen. exists []. destruct fuel; reflexivity.
           * intros k Hk HB. cbn in Hk. lia.
         + apply (both_ext B _ _ _ (sig_read_obj fuel)). unfold ty_ObjectReference.
-          apply Hstruct; [exact wfz_ObjectReference|].
+          apply Hstruct.
           apply has_ty_struct_iff with (n := "ObjectReference"%string). exact Ho.
       - apply has_ty_VDyn in Hty as (Ht & Hg & Hlen & Hv). subst t.
         cbn [dyn_depth] in Hd.
@@ -367,33 +349,33 @@ Section P.
           rewrite !app_length, enc_str_length in Hlen'.
           destruct fuel as [|f]; [lia|].
           rewrite sig_read_dyn, <- app_assoc, (read_str_enc _ _ Hs). cbn [bind].
-          rewrite string_of_bytes_of_string, (parse_print t' (good_ty_wf t' Hg)).
-          destruct (IH t' f (B - 1) (good_ty_wfz t' Hg) Hv) as [He _]; [lia|].
+          rewrite string_of_bytes_of_string, (parse_print t' Hg).
+          destruct (IH t' f (B - 1) Hv) as [He _]; [lia|].
           destruct (He rest) as [d Hd']; [rewrite app_length; lia|].
           rewrite Hd'. cbn [bind]. eexists. reflexivity.
         + intros k Hk HB. destruct fuel as [|f]; [lia|].
           rewrite sig_read_dyn. cbn [spec_enc] in Hk |- *.
           destruct (read_str_trunc B _ _ k Hs Hk HB) as [Hf|[Hge [Hk' Hr]]].
           * apply fails_bind. exact Hf.
-          * rewrite Hr. cbn [bind]. rewrite string_of_bytes_of_string, (parse_print t' (good_ty_wf t' Hg)).
+          * rewrite Hr. cbn [bind]. rewrite string_of_bytes_of_string, (parse_print t' Hg).
             apply fails_bind. rewrite enc_str_length in Hge, Hk' |- *.
-            destruct (IH t' f (B - 1) (good_ty_wfz t' Hg) Hv) as [_ Hst]; [lia|].
+            destruct (IH t' f (B - 1) Hv) as [_ Hst]; [lia|].
             apply Hst; [exact Hk'|lia].
     Qed.
 
     Lemma sig_read_prefix_gen : forall v t fuel k,
-      good_ty t = true -> has_ty v t = true -> Nat.min (dyn_depth v) (S k) <= fuel ->
+      wf_ty t = true -> has_ty v t = true -> Nat.min (dyn_depth v) (S k) <= fuel ->
       k < List.length (spec_enc v) -> fails (sig_read parse c fuel t (firstn k (spec_enc v))).
     Proof.
       intros v t fuel k Hg Hty Hd Hk.
-      destruct (sig_read_strict v t fuel (S k) (good_ty_wfz t Hg) Hty Hd) as [_ Hst].
+      destruct (sig_read_strict v t fuel (S k) Hty Hd) as [_ Hst].
       apply Hst; [exact Hk|lia].
     Qed.
   End SigStrict.
 
   Theorem sig_read_prefix : forall v t fuel k,
     string_reader_drops_err c = false ->
-    good_ty t = true -> has_ty v t = true -> dyn_depth v <= fuel ->
+    wf_ty t = true -> has_ty v t = true -> dyn_depth v <= fuel ->
     k < List.length (spec_enc v) -> fails (sig_read parse c fuel t (firstn k (spec_enc v))).
   Proof.
     intros v t fuel k Hdrop Hg Hty Hd Hk. apply sig_read_prefix_gen; try assumption. lia.
@@ -446,7 +428,7 @@ Section P.
 
     Lemma refl_counted {A} B (p : bytes -> res (A * bytes)) (K : list A -> tval)
         (neg : bytes -> res (tval * bytes)) n es :
-      n = N.of_nat (List.length es) -> (n <= listValueMaxSize)%N -> Forall (elem_ok B p) es ->
+      n = N.of_nat (List.length es) -> (n <= listValueMaxSize)%N -> Forall (elem_ok B p) es -> uniform es ->
       let q := fun bs =>
         do '(m, r) <- read_num 4 bs;
         let l := as_int32 m in
@@ -455,40 +437,38 @@ Section P.
         else do '(xs, r') <- rep p m r; ROk (K xs, r') in
       eats B q (enc_u32 n ++ concat es) /\ strict B q (enc_u32 n ++ concat es).
     Proof.
-      intros Hn Hle Hes q. subst q. destruct (as_int32_small n Hle) as [Hbig Hneg].
+      intros Hn Hle Hes Hu q. subst q. destruct (as_int32_small n Hle) as [Hbig Hneg].
       assert (Hlt : (n < 2 ^ 32)%N)
         by (unfold listValueMaxSize in Hle; change (2 ^ 32)%N with 4294967296%N; lia).
       split.
       - intros rest Hlen. cbv beta. rewrite <- app_assoc, (read_u32_enc n _ Hlt). cbn [bind]. cbv zeta.
         rewrite Hbig, Hneg.
-        destruct (rep_eats B p es Hes rest) as [xs Hxs].
+        destruct (rep_eats B p es Hes Hu rest) as [xs Hxs].
         { rewrite !app_length in Hlen. rewrite app_length. lia. }
         subst n. rewrite Hxs. cbn [bind]. eexists. reflexivity.
       - intros k Hk HB. cbv beta.
         destruct (read_u32_trunc n _ k Hlt Hk) as [[Hlt4 Hr]|[Hge [Hk' Hr]]];
           rewrite Hr; cbn [bind]; [apply fails_err|]. cbv zeta. rewrite Hbig, Hneg.
-        apply fails_bind. subst n. apply (rep_strict B p es Hes); [exact Hk'|lia].
+        apply fails_bind. subst n. apply (rep_strict B p es Hes Hu); [exact Hk'|lia].
     Qed.
 
     Definition RQ (v : tval) : Prop :=
-      forall t B, wfz t = true -> has_ty v t = true -> refl_domain t = true -> lens_ok v = true ->
+      forall t B, has_ty v t = true -> refl_domain t = true -> lens_ok v = true ->
         eats B (refl_dec c eqb t) (spec_enc v) /\ strict B (refl_dec c eqb t) (spec_enc v).
 
     Lemma refl_members {T} (proj : T -> ty) B l (ts : list T) :
       Forall RQ l -> Forall2 (fun x t => has_ty x (proj t) = true) l ts ->
-      forallb (fun t => wfz (proj t)) ts = true ->
       forallb (fun t => refl_domain (proj t)) ts = true ->
       forallb lens_ok l = true ->
       all2 B (map (fun t => refl_dec c eqb (proj t)) ts) (map spec_enc l).
     Proof.
-      intros IH HF Hwz Hdom Hlens. apply all2_of_Forall2.
-      apply (forallb_Forall2_r _ _ _ _ Hwz) in HF.
+      intros IH HF Hdom Hlens. apply all2_of_Forall2.
       apply (forallb_Forall2_r _ _ _ _ Hdom) in HF.
       assert (HL : Forall (fun x => lens_ok x = true) l)
         by (apply Forall_forall; exact (proj1 (forallb_forall lens_ok l) Hlens)).
       apply (Forall2_Forall_l _ _ _ _ HL) in HF.
       revert HF. apply Forall2_mp. eapply Forall_impl; [|exact IH].
-      intros x Hx t [Hlx [[Hty Hw] Hdm]]. apply Hx; assumption.
+      intros x Hx t [Hlx [Hty Hdm]]. apply Hx; assumption.
     Qed.
 
     Lemma num_leaf {C} B w b (g : N -> C) :
@@ -505,7 +485,7 @@ Section P.
     Proof.
       clear parse_print.
       induction v as [w b|b|s|l IH|kvs IH|l IH|t' v IH] using tval_ind2;
-        intros t B Hwz Hty Hdom Hlens.
+        intros t B Hty Hdom Hlens.
       - apply has_ty_VNum in Hty as (s & Ht & Hw & Hb). subst t.
         apply (both_ext B _ _ _ (fun bs => refl_dec_num s w bs Hw)).
         exact (num_leaf B w b (VNum w) Hb).
@@ -516,50 +496,45 @@ Section P.
         + apply (eats_map B read_str VStr). apply (exact_eats B read_str s). apply read_str_exact. exact Hs.
         + apply (strict_map B read_str VStr). apply read_str_strict. exact Hs.
       - apply has_ty_VList in Hty as (t' & Ht & Hn & HF). subst t.
-        cbn [wfz] in Hwz. apply andb_true_iff in Hwz as [Hmw Hwz']. apply Nat.leb_le in Hmw.
         cbn [refl_domain] in Hdom. cbn [lens_ok] in Hlens. apply andb_true_iff in Hlens as [Hle Hl].
         apply N.leb_le in Hle. cbn [spec_enc]. rewrite flat_map_concat_map.
         refine (refl_counted B (refl_dec c eqb t') VList
                   (fun r => if refl_neg_len_panics c then RPanic else RErr r)
-                  _ (map spec_enc l) _ Hle _); [now rewrite map_length|].
+                  _ (map spec_enc l) _ Hle _ (uniform_elems t' l HF)); [now rewrite map_length|].
         apply Forall_map. apply Forall_forall. intros x Hin. rewrite Forall_forall in IH, HF.
-        destruct (IH x Hin t' B Hwz' (HF x Hin) Hdom (proj1 (forallb_forall lens_ok l) Hl x Hin)) as [He Hs].
-        split; [exact He|split; [exact Hs|]].
-        pose proof (min_width_le_len x t' (HF x Hin)) as Hm. lia.
+        destruct (IH x Hin t' B (HF x Hin) Hdom (proj1 (forallb_forall lens_ok l) Hl x Hin)) as [He Hs].
+        split; [exact He|exact Hs].
       - apply has_ty_VMap in Hty as (tk & tv & Ht & Hn & HF). subst t.
-        cbn [wfz] in Hwz. apply andb_true_iff in Hwz as [Hwz Hwv]. apply andb_true_iff in Hwz as [Hmw Hwk].
-        apply Nat.leb_le in Hmw.
         cbn [refl_domain] in Hdom. apply andb_true_iff in Hdom as [Hdk Hdv].
         cbn [lens_ok] in Hlens. apply andb_true_iff in Hlens as [Hle Hl]. apply N.leb_le in Hle.
         cbn [spec_enc]. rewrite flat_map_concat_map.
         refine (refl_counted B (pair_with (refl_dec c eqb tk) (refl_dec c eqb tv))
                   (fun kvs' => VMap (map_of eqb kvs')) (fun r => ROk (VMap [], r))
-                  _ (map (fun kv : tval * tval => spec_enc (fst kv) ++ spec_enc (snd kv)) kvs) _ Hle _);
+                  _ (map (fun kv : tval * tval => spec_enc (fst kv) ++ spec_enc (snd kv)) kvs) _ Hle _
+                  (uniform_entries tk tv kvs HF));
           [now rewrite map_length|].
         apply Forall_map. apply Forall_forall. intros kv Hin. rewrite Forall_forall in IH, HF.
         destruct (IH kv Hin) as [IHk IHv]. destruct (HF kv Hin) as [Htk Htv].
         pose proof (proj1 (forallb_forall _ kvs) Hl kv Hin) as Hlkv. apply andb_true_iff in Hlkv as [Hlk Hlv].
-        destruct (IHk tk B Hwk Htk Hdk Hlk) as [Hek Hsk].
-        destruct (IHv tv B Hwv Htv Hdv Hlv) as [Hev Hsv].
-        split; [|split].
+        destruct (IHk tk B Htk Hdk Hlk) as [Hek Hsk].
+        destruct (IHv tv B Htv Hdv Hlv) as [Hev Hsv].
+        split.
         + apply pair_with_eats; assumption.
         + apply pair_with_strict; assumption.
-        + pose proof (min_width_le_len _ _ Htk) as Hm1. pose proof (min_width_le_len _ _ Htv) as Hm2.
-          rewrite app_length. lia.
       - cbn [lens_ok] in Hlens.
-        assert (Hstruct : forall n fs, wfz (TStruct n fs) = true -> refl_domain (TStruct n fs) = true ->
+        assert (Hstruct : forall n fs, refl_domain (TStruct n fs) = true ->
                   Forall2 (fun x f => has_ty x (snd f) = true) l fs ->
                   eats B (refl_dec c eqb (TStruct n fs)) (spec_enc (VTup l)) /\
                   strict B (refl_dec c eqb (TStruct n fs)) (spec_enc (VTup l))).
-        { intros n fs Hwz' Hdom' HF. apply (both_ext B _ _ _ (refl_dec_struct n fs)).
-          cbn [spec_enc]. rewrite flat_map_concat_map. cbn [wfz] in Hwz'. cbn [refl_domain] in Hdom'.
-          pose proof (refl_members (@snd string ty) B l fs IH HF Hwz' Hdom' Hlens) as Hall. split.
+        { intros n fs Hdom' HF. apply (both_ext B _ _ _ (refl_dec_struct n fs)).
+          cbn [spec_enc]. rewrite flat_map_concat_map. cbn [refl_domain] in Hdom'.
+          pose proof (refl_members (@snd string ty) B l fs IH HF Hdom' Hlens) as Hall. split.
           - exact (eats_map B _ VTup _ (seq_with_eats B _ _ Hall)).
           - exact (strict_map B _ VTup _ (seq_with_strict B _ _ Hall)). }
         apply has_ty_VTup in Hty as [(ts & Ht & HF)|[(n & fs & Ht & HF)|[[Ht Hl]|[Ht Ho]]]]; subst t.
         + apply (both_ext B _ _ _ (refl_dec_tuple ts)).
-          cbn [spec_enc]. rewrite flat_map_concat_map. cbn [wfz] in Hwz. cbn [refl_domain] in Hdom.
-          pose proof (refl_members (fun t => t) B l ts IH HF Hwz Hdom Hlens) as Hall. split.
+          cbn [spec_enc]. rewrite flat_map_concat_map. cbn [refl_domain] in Hdom.
+          pose proof (refl_members (fun t => t) B l ts IH HF Hdom Hlens) as Hall. split.
           * exact (eats_map B _ VTup _ (seq_with_eats B _ _ Hall)).
           * exact (strict_map B _ VTup _ (seq_with_strict B _ _ Hall)).
         + apply Hstruct; assumption.
@@ -567,7 +542,7 @@ Section P.
           * intros rest Hlen. exists (VTup []). reflexivity.
           * intros k Hk HB. cbn in Hk. lia.
         + change (refl_dec c eqb (TS SObject)) with (refl_dec c eqb ty_ObjectReference).
-          unfold ty_ObjectReference. apply Hstruct; [exact wfz_ObjectReference|reflexivity|].
+          unfold ty_ObjectReference. apply Hstruct; [reflexivity|].
           apply has_ty_struct_iff with (n := "ObjectReference"%string). exact Ho.
       - apply has_ty_VDyn in Hty as (Ht & _). subst t. cbn in Hdom. discriminate.
     Qed.
@@ -577,11 +552,11 @@ Section P.
      keys_nodup is not needed either (the decoded map is irrelevant to what is consumed) *)
   Theorem refl_dec_prefix : forall v t k,
     refl_struct_ignores_err c = false -> refl_neg_len_panics c = false -> refl_drop8 c = false ->
-    good_ty t = true -> has_ty v t = true -> refl_domain t = true -> lens_ok v = true ->
+    wf_ty t = true -> has_ty v t = true -> refl_domain t = true -> lens_ok v = true ->
     k < List.length (spec_enc v) -> fails (refl_dec c tval_eqb t (firstn k (spec_enc v))).
   Proof.
     intros v t k Hign _ Hd8 Hg Hty Hdom Hlens Hk.
-    destruct (refl_dec_strict tval_eqb Hign Hd8 v t (S k) (good_ty_wfz t Hg) Hty Hdom Hlens) as [_ Hst].
+    destruct (refl_dec_strict tval_eqb Hign Hd8 v t (S k) Hty Hdom Hlens) as [_ Hst].
     apply Hst; [exact Hk|lia].
   Qed.
 
@@ -635,6 +610,9 @@ Section P.
       rewrite ?app_length, enc_str_length; lia.
   Qed.
 
+  Lemma enc_dval_len_pos v : 1 <= List.length (enc_dval v).
+  Proof. pose proof (enc_dval_len v) as H. lia. Qed.
+
   Lemma dval_body_num f k r :
     dval_body f (bytes_of_string (dkind_letter k)) r =
     (do '(n, r') <- read_num (dkind_width k) r;
@@ -674,26 +652,26 @@ Section P.
   Qed.
 
   Lemma dval_counted B (p : bytes -> res (dval * bytes)) n es :
-    n = N.of_nat (List.length es) -> (n <= listValueMaxSize)%N -> Forall (elem_ok B p) es ->
+    n = N.of_nat (List.length es) -> (n <= listValueMaxSize)%N -> Forall (elem_ok B p) es -> uniform es ->
     let q := fun r =>
       do '(m, r') <- read_num 4 r;
       if (listValueMaxSize <? m)%N then RErr r'
       else do '(l, r'') <- rep p m r'; ROk (DList l, r'') in
     eats B q (enc_u32 n ++ concat es) /\ strict B q (enc_u32 n ++ concat es).
   Proof.
-    intros Hn Hle Hes q. subst q.
+    intros Hn Hle Hes Hu q. subst q.
     assert (Hlt : (n < 2 ^ 32)%N)
       by (unfold listValueMaxSize in Hle; change (2 ^ 32)%N with 4294967296%N; lia).
     assert (Hbig : (listValueMaxSize <? n)%N = false) by (apply N.ltb_ge; exact Hle).
     split.
     - intros rest Hlen. cbv beta. rewrite <- app_assoc, (read_u32_enc n _ Hlt). cbn [bind]. rewrite Hbig.
-      destruct (rep_eats B p es Hes rest) as [xs Hxs].
+      destruct (rep_eats B p es Hes Hu rest) as [xs Hxs].
       { rewrite !app_length in Hlen. rewrite app_length. lia. }
       subst n. rewrite Hxs. cbn [bind]. eexists. reflexivity.
     - intros k Hk HB. cbv beta.
       destruct (read_u32_trunc n _ k Hlt Hk) as [[Hlt4 Hr]|[Hge [Hk' Hr]]];
         rewrite Hr; cbn [bind]; [apply fails_err|]. rewrite Hbig.
-      apply fails_bind. subst n. apply (rep_strict B p es Hes); [exact Hk'|lia].
+      apply fails_bind. subst n. apply (rep_strict B p es Hes Hu); [exact Hk'|lia].
   Qed.
 
   Lemma dval_raw B b :
@@ -752,12 +730,12 @@ Section P.
         rewrite flat_map_concat_map.
         apply hdr_both; [apply short_sig; cbn; lia|].
         apply (both_ext _ _ _ _ (dval_body_list f)).
-        refine (dval_counted (B - 4) (dec_dval parse c f) _ (map enc_dval l) _ Hlen _);
-          [now rewrite map_length|].
-        apply Forall_map. apply Forall_forall. intros x Hin. rewrite Forall_forall in IH, HF.
-        destruct (IH x Hin (HF x Hin) f (B - 4)) as [He Hs]; [lia|].
-        split; [exact He|split; [exact Hs|]].
-        pose proof (enc_dval_len x) as Hx. lia.
+        refine (dval_counted (B - 4) (dec_dval parse c f) _ (map enc_dval l) _ Hlen _ _);
+          [now rewrite map_length| |].
+        + apply Forall_map. apply Forall_forall. intros x Hin. rewrite Forall_forall in IH, HF.
+          destruct (IH x Hin (HF x Hin) f (B - 4)) as [He Hs]; [lia|].
+          split; [exact He|exact Hs].
+        + left. apply Forall_map. apply Forall_forall. intros x _. exact (enc_dval_len_pos x).
       - inversion Hwf as [| | |b' Hlen| |]; subst. cbn [enc_dval]. unfold sig_bytes.
         apply hdr_both; [apply short_sig; cbn; lia|].
         apply (both_ext _ _ _ _ (dval_body_raw f)).
@@ -769,10 +747,10 @@ Section P.
         + intros k Hk HB. cbn in Hk. lia.
       - inversion Hwf as [| | | | |t v Hg Hlk Hno Hlen Hty]; subst. cbn [enc_dval].
         apply hdr_both; [rewrite length_bytes_of_string; exact Hlen|].
-        apply (both_ext _ _ _ _ (fun r => dval_body_other f t r Hlk Hno (good_ty_wf t Hg))). split.
+        apply (both_ext _ _ _ _ (fun r => dval_body_other f t r Hlk Hno Hg)). split.
         + intros rest Hlen'.
           destruct (sig_read_strict Hdrop v t (S (List.length (spec_enc v ++ rest)))
-                      (S (List.length (spec_enc v ++ rest))) (good_ty_wfz t Hg) Hty) as [He _]; [lia|].
+                      (S (List.length (spec_enc v ++ rest))) Hty) as [He _]; [lia|].
           destruct (He rest) as [x Hx]; [lia|]. rewrite Hx. cbn [bind]. eexists. reflexivity.
         + intros k Hk HB. apply fails_bind. rewrite (firstn_len_lt k _ Hk).
           apply (sig_read_prefix_gen Hdrop); [exact Hg|exact Hty|lia|exact Hk].
